@@ -719,6 +719,10 @@ struct V : RecursiveASTVisitor<V> {
         v["line"] = D.lineOf(VD->getLocation());
         v["keys"] = D.keysOfDecl(VD);
         v["member"] = VD->isStaticDataMember();
+        // initialiser of a variable selected like a function (funcs= option): tables such as generator::keywords
+        if (!D.O.funcs.empty() && wanted(D.qname(VD)))
+            if (const Expr* init = VD->getAnyInitializer())
+                v["init"] = D.node(init);
         vars.push_back(std::move(v));
         return true;
     }
